@@ -754,7 +754,8 @@ def run(ctx, pid, id_offset=0):
 
 
 def replay(ctx, pid, finding):
-    sc = dict(finding['scenario']); sc['id'] = 1
+    # (a scenario whose hit is a matter of chance per connection is replayed in as many copies as its confirmation used)
+    scs = [dict(finding['scenario'], id=i + 1) for i in range(finding['scenario'].get('confirm_copies', 1))]
     _, _, props = build.__wrapped__(ctx, pid) if hasattr(build, '__wrapped__') else (None, None, (FAM[pid]['props'] if pid in FAM else EXTRA_ONLY[pid][1]))
-    tr, _ = run_harness(ctx, [sc], 'replay', shards=1)
-    judge(ctx, [sc], tr, props, confirm=False)
+    tr, _ = run_harness(ctx, scs, 'replay', shards=1)
+    judge(ctx, scs, tr, props, confirm=False)
